@@ -20,6 +20,8 @@ func init() {
 			"Decides these necessary conditions; does not decide goroutine counts at run time or re-entrancy deadlocks.",
 		Run: runC16,
 		Mutants: []Mutant{
+			{Name: "started-before-context", File: "internal/client/tunnel/tunnel.go", Rule: "R-C16-4",
+				Old: "\tt.SetCtx(t.manager.Ctx(), t.onClose)\n\n\t// 更新状态\n\tif !t.state.CompareAndSwap(int32(TunnelStateConnecting), int32(TunnelStateConnected)) {\n\t\treturn coreerrors.New(coreerrors.CodeInvalidState, \"invalid state transition\")\n\t}\n", New: "\t// 更新状态\n\tif !t.state.CompareAndSwap(int32(TunnelStateConnecting), int32(TunnelStateConnected)) {\n\t\treturn coreerrors.New(coreerrors.CodeInvalidState, \"invalid state transition\")\n\t}\n\tt.SetCtx(t.manager.Ctx(), t.onClose)\n"},
 			{Name: "dispose-latch-removed", File: "internal/core/dispose/dispose.go", Rule: "R-C16-1",
 				Old: "\tif c.closed {\n\t\treturn &DisposeResult{Errors: c.errors}\n\t}\n\tc.closed = true\n\tif c.cancel != nil {", New: "\tc.closed = true\n\tif c.cancel != nil {"},
 			{Name: "tunnel-close-cas-fallthrough", File: "internal/client/tunnel/tunnel.go", Rule: "R-C16-2",
